@@ -127,8 +127,9 @@ def gen_tfilter(tier, rng):
         bs = rng.choice([64, 512, 1024, 2048, 4096])
         cases.append("tf%d %d:1 %s" % (i, bs, " ".join(es)))
         i += 1
-    lens = list(range(1990, 2062)) + list(range(985, 1035)) if tier == "thorough" else \
-        rng.sample(list(range(2005, 2035)), 12) + rng.sample(list(range(995, 1025)), 6)
+    lens = list(range(1985, 2070)) + list(range(985, 1040))
+    if tier == "thorough":
+        lens += list(range(640, 700)) + list(range(480, 530)) + list(range(4050, 4110))
     for ln in lens:
         es = ["Ex%02x:%d:1:p%d.%d.1" % (0x61 + k, 50 - k, ln, k) for k in range(7)]
         cases.append("tf%d 64:1 %s" % (i, " ".join(es)))
